@@ -108,10 +108,12 @@ class PauliSumExponential:
         """
         if protocols.is_parameterized(self._exponent):
             raise ValueError("Exponent should not parameterized.")
-        ret = np.ones(1)
-        for pauli_string_exp in self:
-            ret = np.kron(ret, protocols.unitary(pauli_string_exp))
-        return ret
+        # The factors commute but may share qubits: multiply them on the qubits of the sum.
+        qubits = self.qubits
+        result = protocols.apply_unitaries(
+            list(self), qubits, protocols.ApplyUnitaryArgs.for_unitary(len(qubits))
+        )
+        return result.reshape((2 ** len(qubits),) * 2)
 
     @_compat.cached_method
     def _has_unitary_(self) -> bool:
